@@ -122,7 +122,14 @@ func (s *coreSim) monRto(e int) {
 	if k.rx_minrto != want {
 		s.violate("core-minrto-config", fmt.Sprintf("rx_minrto=%d with nodelay=%d", k.rx_minrto, k.nodelay))
 	}
-	if k.rx_rto < want || k.rx_rto > 60000 {
+	if s.modeSwitched[e] && k.rx_rto != s.modeSwitchRto[e] {
+		s.modeSwitched[e] = false // recomputed from an RTT sample since the mode switch
+	}
+	lo := want
+	if s.modeSwitched[e] {
+		lo = 0 // boundary B4: the value computed under the previous mode is still reported
+	}
+	if k.rx_rto < lo || k.rx_rto > 60000 {
 		s.violate("core-rto-out-of-bounds", fmt.Sprintf("rx_rto=%d outside [%d, 60000]", k.rx_rto, want))
 	}
 }
@@ -259,7 +266,8 @@ func TestVerifC18(t *testing.T) {
 		profile: func(i int, rng *vrng) coreProfile {
 			p := defaultProfile()
 			p.name, p.forge = "forged-timestamps", 25
-			p.reconf, p.keepMode = 4, true // NoDelay (mode argument negative = unchanged) / WndSize mid-life
+			p.reconf = 4 // NoDelay (incl. "leave unchanged" arguments and mode switches, boundary B4) / WndSize mid-life
+			p.keepMode = i%2 == 0
 			return p
 		},
 		nontriv: func(info coreCaseInfo, s *coreSim) bool { return info.forged || info.retrans },
